@@ -7,6 +7,7 @@ static _Atomic uint8_t* taken;
 static uint64_t* steal_inv;  // per seq: invocation stamp of the steal that took it (0 = not stolen)
 static size_t max_vals;
 static _Atomic int owner_done;
+static _Atomic int steal_gate;  // shape 3: thieves start only when the owner is about to grow the array
 static int shape;  // 0 small, 1 grow, 2 mixed
 static long round_ops;
 static int cur_round;
@@ -60,6 +61,13 @@ static void owner_round(ds_worker_t* w) {
     const int finishing = step >= round_ops;
     if (finishing) {
       do_push = 0;
+    } else if (shape == 3) {
+      // growth race: fill to one below the growth boundary with the thieves held back, release them, then do the growing
+      // push (and a few more) while they drain the old array
+      if (msz == 255 && !atomic_load(&steal_gate)) atomic_store(&steal_gate, 1);
+      do_push = step < 256 + (long)(target % 4);
+      if (!do_push) step = round_ops;  // continue with the finishing pops
+      if (!do_push) continue;
     } else if (shape == 0) {
       do_push = msz < 1 + (vp_rand(&w->rng) & 1);
     } else if (shape == 1) {
@@ -120,6 +128,7 @@ static void owner_round(ds_worker_t* w) {
 
 static void thief_round(ds_worker_t* w) {
   ds_start_line();
+  while (!atomic_load(&steal_gate) && !atomic_load(&owner_done)) __asm__ __volatile__("pause" ::: "memory");
   for (;;) {
     const int done = atomic_load(&owner_done);
     vp_op_t* o = ds_hist ? vp_log_begin(&w->log, w->id, VP_OP_STEAL, 0) : NULL;
@@ -182,7 +191,7 @@ void ds_sub_wsd(void) {
   steal_inv = calloc(max_vals, sizeof(uint64_t));
   uint64_t rng = vp_mix(vp_cfg.seed, 4242);
   for (cur_round = 0; cur_round < rounds; ++cur_round) {
-    shape = fixed_shape >= 0 ? fixed_shape : (int)(vp_rand(&rng) % 3);
+    shape = fixed_shape >= 0 ? fixed_shape : (int)(vp_rand(&rng) % 4);
     int thieves = fixed_thieves >= 0 ? fixed_thieves : (int)(vp_rand(&rng) % (unsigned)ds_nworkers);
     if (thieves > ds_nworkers - 1) thieves = ds_nworkers - 1;
     dq = wsd_work_stealing_deque_create();
@@ -198,6 +207,7 @@ void ds_sub_wsd(void) {
     next_seq = 0;
     nmust = 0;
     atomic_store(&owner_done, 0);
+    atomic_store(&steal_gate, shape == 3 ? 0 : 1);
     int i;
     for (i = 0; i <= thieves; ++i) vp_log_reset(&ds_w[i].log);
     ds_run_round(thieves + 1, round_fn);
